@@ -1,5 +1,5 @@
 //@PROBE file=src/distance.rs test=verif_probe_distance_c16 clauses=distance
-//@BOUND every vector length 0..=130 x 3 magnitudes (1e-2, 1, 1e3) of pseudo-random values, plus close vectors (relative distance 1e-2..1e-4 of the norm, 8 lengths x 3 magnitudes): packing round trip (values + zero padding to a multiple of 8; by-value and by-reference conversions alike), euclidean / cosine against f64 scalar formulas (1e-4 relative / absolute), symmetry, triangle inequality on triples, cosine range, parallel / opposite / positive scaling; 200 pairs of different lengths (common packed prefix)
+//@BOUND every vector length 0..=130 x 3 magnitudes (1e-2, 1, 1e3) of pseudo-random values, plus close vectors (relative distance 1e-2..1e-4 of the norm, 8 lengths x 3 magnitudes) and sparse vectors with zero tails (lengths 1..=40): packing round trip (values + zero padding to a multiple of 8; by-value and by-reference conversions alike), euclidean / cosine against f64 scalar formulas (1e-4 relative / absolute), symmetry, triangle inequality on triples, cosine range, parallel / opposite / positive scaling; 200 pairs of different lengths (common packed prefix)
 #[cfg(test)]
 mod verif_probe_distance_c16 {
     // Bounded stand-in for "packing and the distance functions match the scalar definitions" over all lengths up to 130
@@ -75,6 +75,22 @@ mod verif_probe_distance_c16 {
             let (sc, ws) = (cosine(&fa, &fb) as f64, co(&a, &b));
             if (sc - ws).abs() > 1e-4 { failures.push(format!("{}: distance.cosine_is_the_scalar_formula: {} vs {}", ctx, sc, ws)); }
         } } }
+        // sparse vectors: zero-valued coordinates are data, not padding - a vector whose tail (a whole packed block or more) is zero unpacks
+        // to the same padded length as a dense one
+        for len in 1usize..=40 { for lead in [0usize, 1, 7, 8, 9, len / 2] {
+            if lead > len { continue; }
+            cases += 1;
+            let a: Vec<f32> = (0..len).map(|i| if i < lead { 1.0 + i as f32 } else { 0.0 }).collect();
+            for (how, packed) in [("by reference", Feature::from_vec(&a)), ("by value", Feature::from_vec(a.clone()))] {
+                let back = Vec::from_vec(&packed);
+                if back.iter().map(|x| x.to_bits()).collect::<Vec<_>>() != padded(&a).iter().map(|x| x.to_bits()).collect::<Vec<_>>() {
+                    failures.push(format!("PROBE input: vector of length {} with {} leading non-zero values, zeros after (packed {}): distance.packing_round_trip: unpacks to {} values {:?}..., expected the {} values padded to {}", len, lead, how, back.len(), &back[..back.len().min(12)], len, padded(&a).len()));
+                }
+            }
+            let b: Vec<f32> = (0..len).map(|i| if i < lead { 2.0 } else { 0.0 }).collect();
+            let (d, w) = (euclidean(&Feature::from_vec(&a), &Feature::from_vec(&b)) as f64, eu(&a, &b));
+            if (d - w).abs() > 1e-4 * w + 1e-9 { failures.push(format!("PROBE input: sparse vectors of length {} ({} leading non-zero values): distance.euclidean_is_the_scalar_formula: {} vs {}", len, lead, d, w)); }
+        } }
         // different lengths: the common packed prefix
         for _ in 0..200 {
             cases += 1; nontrivial += 1;
